@@ -62,7 +62,13 @@ def _wr(prop, tier, seed, replay=None):
     return run_writers.run(prop, tier, seed, replay)
 
 
+def _rd(prop, tier, seed, replay=None):
+    from . import run_readers
+    return run_readers.run(prop, tier, seed, replay)
+
+
 CHECKS = {
+    'C01': _rd,
     'C02': _wr,
     'C17': _split,
     'C06': _gr, 'C09': _gr, 'C07': _gr, 'C08': _gr,
